@@ -252,6 +252,7 @@ def run_broken(case):
     before = snapshot(g)
     reads = {
         "len": lambda: len(c), "iter": lambda: list(c), "get": lambda: c[case["i"]],
+        "get-last": lambda: c[-1], "get-from-end": lambda: c[-(case["i"] + 1)],
         "index-absent": lambda: c.index(URIRef("urn:absent")), "index-present": lambda: c.index(M(case["members"][0] if case["members"] else 3)),
         "in": lambda: URIRef("urn:absent") in c, "n3": lambda: c.n3(),
     }
